@@ -120,6 +120,8 @@ type serverConn struct {
 
 	debug  bool
 	logger fasthttp.Logger
+
+	vh verifSrvHook
 }
 
 func (sc *serverConn) closeIdleConn() {
@@ -135,6 +137,10 @@ func (sc *serverConn) Handshake() error {
 }
 
 func (sc *serverConn) Serve() error {
+	if verifOn {
+		defer vServeRet(sc)
+	}
+
 	sc.closer = make(chan struct{}, 1)
 	sc.writeStop = make(chan struct{})
 	sc.handlerDone = make(chan *Stream, 128)
@@ -291,6 +297,10 @@ func (sc *serverConn) checkFrameWithStream(fr *FrameHeader) error {
 }
 
 func (sc *serverConn) readLoop() (err error) {
+	if verifOn {
+		defer vRLExit(sc)
+	}
+
 	defer func() {
 		if err := recover(); err != nil {
 			sc.logger.Printf("readLoop panicked: %s\n%s\n", err, debug.Stack())
@@ -363,6 +373,9 @@ func (sc *serverConn) readLoop() (err error) {
 				return errConnClosed
 			}
 
+			if verifOn {
+				vRLFwd(sc, fr)
+			}
 			sc.reader <- fr
 			continue
 		}
@@ -375,6 +388,9 @@ func (sc *serverConn) readLoop() (err error) {
 				sc.handleSettings(st)
 				// forward to handleStreams so the INITIAL_WINDOW_SIZE delta is
 				// applied to open streams in frame order.
+				if verifOn {
+					vRLFwd(sc, fr)
+				}
 				sc.reader <- fr
 				continue
 			}
@@ -387,6 +403,9 @@ func (sc *serverConn) readLoop() (err error) {
 			}
 
 			// the actual window bookkeeping happens in handleStreams.
+			if verifOn {
+				vRLFwd(sc, fr)
+			}
 			sc.reader <- fr
 			continue
 		case FramePing:
@@ -416,6 +435,10 @@ func (sc *serverConn) readLoop() (err error) {
 // handleStreams handles everything related to the streams
 // and the HPACK table is accessed synchronously.
 func (sc *serverConn) handleStreams() {
+	if verifOn {
+		defer vSLExit(sc)
+	}
+
 	defer func() {
 		if err := recover(); err != nil {
 			sc.logger.Printf("handleStreams panicked: %s\n%s\n", err, debug.Stack())
@@ -472,10 +495,16 @@ func (sc *serverConn) handleStreams() {
 			// nobody will send. Whatever is behind it stays open otherwise.
 			_ = strm.ctx.Response.CloseBodyStream()
 
+			if verifOn {
+				vPoolPut(vpReqCtx, strm.ctx)
+			}
 			ctxPool.Put(strm.ctx)
 			strm.ctx = nil
 		}
 
+		if verifOn {
+			vPoolPut(vpStream, strm)
+		}
 		streamPool.Put(strm)
 	}
 
@@ -556,10 +585,17 @@ loop:
 	for {
 		releaseHandled()
 
+		if verifOn {
+			vSLIdle(sc, strms, openStreams, len(closedRing))
+		}
+
 		select {
 		case <-sc.closer:
 			break loop
 		case strm := <-sc.handlerDone:
+			if verifOn {
+				vSLWake(sc, 1)
+			}
 			strm.handlerRunning = false
 
 			if strm.abandoned {
@@ -582,6 +618,9 @@ loop:
 				break loop
 			}
 		case <-sc.maxRequestTimer.C:
+			if verifOn {
+				vSLWake(sc, 2)
+			}
 			reqTimerArmed = false
 
 			// No read timeout configured means requests do not time out.
@@ -634,6 +673,10 @@ loop:
 		case fr, ok := <-sc.reader:
 			if !ok {
 				return
+			}
+
+			if verifOn {
+				vSLWake(sc, 0)
 			}
 
 			handled = fr
@@ -1030,6 +1073,9 @@ var ctxPool = sync.Pool{
 
 func (sc *serverConn) createStream(c net.Conn, frameType FrameType, strm *Stream) {
 	ctx := ctxPool.Get().(*fasthttp.RequestCtx)
+	if verifOn {
+		vPoolGet(vpReqCtx, ctx)
+	}
 	ctx.Request.Reset()
 	ctx.Response.Reset()
 
@@ -1322,6 +1368,10 @@ func (sc *serverConn) dispatchHandler(strm *Stream) {
 
 	strm.handlerRunning = true
 
+	if verifOn {
+		vDispatch(sc, strm)
+	}
+
 	go func() {
 		defer func() {
 			// A panic here has no caller to recover it, so without this it
@@ -1365,6 +1415,9 @@ func (sc *serverConn) finishRequest(strm *Stream) bool {
 
 	fr.SetBody(h)
 
+	if verifOn {
+		vAccess(sc, "enc", "sl")
+	}
 	fasthttpResponseHeaders(h, &sc.enc, &ctx.Response)
 
 	sc.write(fr)
@@ -1543,14 +1596,25 @@ func (sc *serverConn) sendPingAndSchedule() {
 // once the connection is on its way out: the ping and idle timers queue frames
 // from their own goroutines and cannot know the write loop has gone.
 func (sc *serverConn) write(fr *FrameHeader) {
+	if verifOn {
+		vWQ(sc)
+	}
+
 	select {
 	case sc.writer <- fr:
 	case <-sc.writeStop:
+		if verifOn {
+			vWDrop(sc)
+		}
 		ReleaseFrameHeader(fr)
 	}
 }
 
 func (sc *serverConn) writeLoop() {
+	if verifOn {
+		defer vWLExit(sc)
+	}
+
 	buffered := 0
 
 	send := func(fr *FrameHeader) error {
@@ -1563,6 +1627,10 @@ func (sc *serverConn) writeLoop() {
 		}
 
 		ReleaseFrameHeader(fr)
+
+		if verifOn {
+			vWWritten(sc)
+		}
 
 		if err != nil {
 			sc.logger.Printf("ERROR: writeLoop: %s\n", err)
@@ -1598,6 +1666,9 @@ func (sc *serverConn) writeLoop() {
 
 func (sc *serverConn) handleSettings(st *Settings) {
 	st.CopyTo(&sc.clientS)
+	if verifOn {
+		vAccess(sc, "enc", "rl")
+	}
 	sc.enc.SetMaxTableSize(sc.clientS.HeaderTableSize())
 
 	// The per-stream send windows are adjusted in handleStreams, where the
